@@ -508,7 +508,7 @@ def main():
         # The verifier could not decide (lost anchor, construct outside the subset, ...).  Before giving up, the
         # run-time twins of the property statements are run against the real code: a concrete failing input on the
         # real code is a violation whatever the verifier's state; finding none leaves the result UNDECIDED.
-        structural = [u for u in undecided if ('lost anchor' in u or 'front-end error' in u or 'tooling error' in u or 'did not produce a verdict' in u)]
+        structural = [u for u in undecided if ('lost anchor' in u or 'front-end error' in u or 'tooling error' in u or 'did not produce a verdict' in u or 'resource limit' in u)]
         if structural and not os.environ.get('VERIF_NO_TWIN_FALLBACK'):
             try:
                 import replaytool, witness
@@ -522,8 +522,8 @@ def main():
                         w = witness.gen_clock(pid, fake)
                     if w is None and pid in ('C05', 'C08'):
                         w = witness.gen_sock_timed(pid, fake)
-                    if w is None and pid in ('C19',):
-                        w = witness.gen_sock(pid, fake)
+                    if w is None and pid in ('C19', 'C01', 'C02', 'C06', 'C07'):
+                        w = witness.gen_sock(pid, fake)      # the same commands through the real TCP server (features wired in only there)
                     if w is None and pid in ('C03', 'C04'):
                         w = witness.gen_conc_store(pid, fake) or (witness.gen_steps_lin(pid, fake) if pid == 'C03' else None)
                     if w is None and pid in ('C09', 'C10', 'C12', 'C13', 'C18'):
@@ -532,7 +532,7 @@ def main():
                         w = witness.gen_sock_faults(pid, fake)
                     if w is None and pid in ('C18', 'C13'):
                         w = witness.gen_sock_timeouts(pid, fake)
-                    if w is None and pid in ('C11', 'C12'):
+                    if w is None and pid in ('C11', 'C12', 'C10'):
                         w = witness.gen_sock_correlation(pid, fake)
                     if w is None and pid in ('C15', 'C14'):
                         w = witness.gen_policy(pid, fake)
@@ -559,6 +559,7 @@ def main():
         json.dump(fb, open(os.path.join(ROOT, 'specs', 'baseline_functions.json'), 'w'), indent=1, sort_keys=True)
     # ---- thorough tier: things that can only lower confidence in the evidence, never raise an alarm ----
     thorough = {}
+    thorough_found = []      # (name, witness): concrete failing inputs found by the thorough tier's exploration
     if tier == 'thorough':
         # (a) seeded-fault self-test restricted to this property's catalogue entries
         try:
@@ -580,7 +581,7 @@ def main():
                     w, nh = refmodel.search(seed, 400)
                     thorough['twin'] = {'histories': nh, 'mismatch': (w or {}).get('why')}
                     if w:
-                        undecided.append('the run-time twin of the property statements disagrees with the real code although every obligation is discharged: %s (history in evidence)' % w['why'])
+                        thorough_found.append(('reference-model', {'kind': 'recorded-session', 'lines': w.get('lines'), 'what': w['why'], 'observed': w.get('observed'), 'required': 'every step of the history agrees with the reference model of the property statements (tools/refmodel.py)'}))
                         thorough['twin']['witness_lines'] = w.get('lines')
             except Exception as e:
                 thorough['twin_error'] = repr(e)
@@ -589,7 +590,7 @@ def main():
                 import witness
                 w = witness.gen_steps_lin(pid, {'full': 'conc'})
                 thorough['step_level_schedules'] = {'bounded': 'two threads, get/set/delete/flush on one key, thread 1 parked before each of its Cache-layer / clock calls', 'schedules': witness.gen_steps_lin.last_count, 'mismatch': (w or {}).get('what')}
-                if w: undecided.append('step-level schedule grid: %s (although every obligation is discharged or known)' % w['what'])
+                if w: thorough_found.append(('step-level-schedules', w))
             except Exception as e:
                 thorough['step_level_schedules_error'] = repr(e)
         if pid in ('C05', 'C08'):
@@ -599,7 +600,7 @@ def main():
                 if ok:
                     w = witness.gen_sock_timed(pid, {'full': 'server/flush'})
                     thorough['socket_timed_pipelines'] = {'bounded': 'four phased pipelines over TCP with the server clock advanced between phases (delayed flush + later store, quiet variant, identical re-store, immediate flush)', 'pipelines': witness.gen_sock_timed.last_count, 'mismatch': (w or {}).get('what')}
-                    if w: undecided.append('timed socket twin disagrees with the real server although every obligation is discharged: %s' % w['what'][:300])
+                    if w: thorough_found.append(('timed-socket-pipelines', w))
             except Exception as e:
                 thorough['socket_timed_error'] = repr(e)
         if pid == 'C11':
@@ -609,7 +610,7 @@ def main():
                 if ok:
                     w = witness.gen_sock_correlation(pid, {'full': 'server/conn'})
                     thorough['socket_correlation'] = {'bounded': 'three valid requests followed by a request malformed in one of six ways, in one segment / in its own segment; oracle independent of the code: whole response frames, each correlated with a request sent, in order', 'scenarios': witness.gen_sock_correlation.last_count, 'mismatch': (w or {}).get('what')}
-                    if w: undecided.append('socket correlation twin disagrees with the real server although every obligation is discharged: %s' % w['what'][:300])
+                    if w: thorough_found.append(('socket-correlation', w))
             except Exception as e:
                 thorough['socket_correlation_error'] = repr(e)
         if pid == 'C18':
@@ -619,10 +620,10 @@ def main():
                 if ok:
                     w = witness.gen_sock_faults(pid, {'full': 'server/client'})
                     thorough['socket_faults'] = {'bounded': 'stream of 4 requests cut at frame boundaries +-1 / inside headers, corrupted magic after 1-3 complete requests, ten faulted connections in a row; a second connection observes', 'scenarios': witness.gen_sock_faults.last_count, 'mismatch': (w or {}).get('what')}
-                    if w: undecided.append('socket fault twin disagrees with the real server although every obligation is discharged: %s' % w['what'][:300])
+                    if w: thorough_found.append(('socket-faults', w))
                     w3 = witness.gen_sock_timeouts(pid, {'full': 'server/client'})
                     thorough['socket_idle_timeouts'] = {'bounded': 'receive timeout 1 s; the client goes silent inside a header / a body / an oversized body / between requests; the connection must be closed 2.6 s later', 'scenarios': witness.gen_sock_timeouts.last_count, 'mismatch': (w3 or {}).get('what')}
-                    if w3: undecided.append('idle-timeout twin disagrees with the real server although every obligation is discharged: %s' % w3['what'][:300])
+                    if w3: thorough_found.append(('socket-idle-timeouts', w3))
             except Exception as e:
                 thorough['socket_faults_error'] = repr(e)
         if pid == 'C05':
@@ -632,7 +633,7 @@ def main():
                 if ok:
                     w = witness.gen_clock(pid, {'full': 'server/timer'})
                     thorough['clock_twin'] = {'bounded': 'ticks 1 .. 2^23 of the real SystemTimer', 'mismatch': (w or {}).get('what')}
-                    if w: undecided.append('clock twin disagrees with the real SystemTimer although every obligation is discharged')
+                    if w: thorough_found.append(('clock', w))
             except Exception as e:
                 thorough['clock_twin_error'] = repr(e)
         if pid in ('C09', 'C10', 'C12', 'C13'):
@@ -642,15 +643,26 @@ def main():
                 if ok:
                     w = witness.gen_framing(pid, {'full': 'codec_dec/decode'})
                     thorough['framing_grid'] = {'frames': 37 * 4 * 3 * 3, 'mismatch': (w or {}).get('what')}
-                    if w: undecided.append('framing grid disagrees with the real code although every obligation is discharged: %s' % w.get('what'))
+                    if w: thorough_found.append(('framing-grid', w))
                     # the same pipelines through the REAL MemcacheTcpServer over loopback TCP, in several segmentations,
                     # against the socket-less request path (catches what no contract expresses: a frame read but never
                     # handed to the handler, responses held back, ...)
                     w2 = witness.gen_sock(pid, {'full': 'server/read_frame'})
                     thorough['socket_pipelines'] = {'pipelines': len(witness.sock_pipelines()), 'mismatch': (w2 or {}).get('what', None) and w2['what'][:300]}
-                    if w2: undecided.append('socket-level pipeline twin disagrees with the real server although every obligation is discharged: %s' % w2['what'][:300])
+                    if w2: thorough_found.append(('socket-pipelines', w2))
             except Exception as e:
                 thorough['framing_grid_error'] = repr(e)
+        # what the thorough exploration FOUND is a concrete failing input on the real code (each twin re-runs a failing
+        # scenario before it reports it): a violation of the property on something explored, with its replay file
+        for (name, w) in thorough_found:
+            os.makedirs(REPLAYS, exist_ok=True)
+            path = os.path.join(REPLAYS, '%s-thorough-%s.json' % (pid, name))
+            json.dump({'property': pid, 'obligation': 'none: found by the thorough tier (%s) although every obligation is discharged or known' % name,
+                       'decided_by': 'run-time twin of the property statement on the real code (a concrete failing input)', 'witness': w}, open(path, 'w'), indent=1)
+            print('VIOLATION property=%s replay=%s' % (pid, path))
+            violations.append({'full': 'thorough-twin/' + name})
+            thorough.setdefault('found', []).append({'by': name, 'what': (w.get('what') or '')[:300], 'replay': path})
+            rc = 1
         if undecided and rc == 0:
             for u in undecided:
                 print('UNDECIDED property=%s reason=%s' % (pid, u.replace('\n', ' ')[:600]))
